@@ -1550,23 +1550,35 @@ impl PeerConnection {
                 {
                     new_role = Some(true);
                 } else {
+                    let is_client = |val: &str| match val {
+                        "active" => false,
+                        "passive" => true,
+                        "actpass" => false,
+                        _ => true,
+                    };
                     for section in &desc.media_sections {
                         for attr in &section.attributes {
                             if attr.key == "setup"
                                 && let Some(val) = &attr.value
                             {
-                                let is_client = match val.as_str() {
-                                    "active" => false,
-                                    "passive" => true,
-                                    "actpass" => false,
-                                    _ => true,
-                                };
-                                new_role = Some(is_client);
+                                new_role = Some(is_client(val));
                                 break;
                             }
                         }
                         if new_role.is_some() {
                             break;
+                        }
+                    }
+                    if new_role.is_none() {
+                        // a=setup may be given once, at session level (RFC 8866 5.13:
+                        // a session-level attribute applies to every media section).
+                        for attr in &desc.session.attributes {
+                            if attr.key == "setup"
+                                && let Some(val) = &attr.value
+                            {
+                                new_role = Some(is_client(val));
+                                break;
+                            }
                         }
                     }
                 }
